@@ -238,8 +238,16 @@ Definition suffixb (suf s : string) : bool :=
   let b := rev (list_ascii_of_string s) in
   prefix (string_of_list_ascii a) (string_of_list_ascii b).
 
+(* _remove_model_seed_inputs: seed.name.startswith("_model_") and seed.name.endswith("_seed") - a PATTERN,
+   independent of the current name of the node that carries the seed input *)
 Definition is_model_seed_name (s : string) : bool := prefix "_model_" s && suffixb "_seed" s.
-Definition reserved_name (s : string) : bool := prefix "_model" s.
+(* the name _add_model_seed_nodes gives to the seed node of a node called [nm] *)
+Definition seed_name_for (nm : string) : string := ("_model_" ++ nm ++ "_seed")%string.
+(* GraphBuilder.build_model: node.name.startswith("_model") -> "has reserved name" *)
+Definition build_reserved (s : string) : bool := prefix "_model" s.
+(* Model.pop_nodes_and_vars / copy_nodes_and_vars: {nm: nd ... if not nm.startswith("_model")} *)
+Definition pop_dropped (s : string) : bool := prefix "_model" s.
+Definition reserved_name (s : string) : bool := build_reserved s.
 
 Fixpoint kw_find (k : string) (kw : list (string * nid)) : option nid :=
   match kw with [] => None | (k', i) :: r => if String.eqb k k' then Some i else kw_find k r end.
@@ -276,7 +284,7 @@ Definition add_seed_one (acc : world * result unit) (i : nid) : world * result u
         if n_inmodel n then (w, Err InModel)          (* set_inputs is guarded by no_model_method *)
         else
           let sid := List.length (w_nodes w) in
-          let w1 := addn w (value_node ("_model_" ++ n_name n ++ "_seed")%string) in
+          let w1 := addn w (value_node (seed_name_for (n_name n))) in
           let kw := match kw_find "seed" (n_kw n) with
                     | Some s => ("seed", s) :: kw_remove "seed" (n_kw n)
                     | None => ("seed", sid) :: n_kw n
@@ -395,7 +403,7 @@ Definition copied_world (copy : bool) (w' : world) (m : model) : world :=
 Definition pop (w : world) (m : model) : world :=
   fold_left (fun w' i => setn w' i (set_inmodel false)) (m_nodes m) w.
 Definition popped_nodes (w : world) (m : model) : list nid :=
-  filter (fun i => negb (reserved_name (name_of w i))) (m_nodes m).
+  filter (fun i => negb (pop_dropped (name_of w i))) (m_nodes m).
 
 (* ------------------------------------------------------------------------------------------ *)
 (* structural mutators, guarded by no_model_method / no_model_setter                          *)
